@@ -260,7 +260,7 @@ func init() {
 			base := valid(nb, []int{2, 3, 4})
 			tables := map[string][]byte{
 				"empty": {}, "one-byte": {1}, "43": base[:43], "44": base[:44], "45": base[:45], "valid": base, "valid-same": valid(nb, local),
-				"other-set": valid(nb, []int{100, 101, 102, 103, 104, 105, 106, 107, 108, 109, 110, 111, 112, 113, 114, 115, 116, 117, 118, 119, 120}),
+				"other-set":   valid(nb, []int{100, 101, 102, 103, 104, 105, 106, 107, 108, 109, 110, 111, 112, 113, 114, 115, 116, 117, 118, 119, 120}),
 				"truncated-1": base[:len(base)-1], "truncated-bucket": base[:len(base)-44], "one-too-long": append(append([]byte{}, base...), 0),
 				"bucket-too-long": append(append([]byte{}, base...), make([]byte, 44)...), "all-ff": bytes.Repeat([]byte{0xff}, len(base)), "all-zero": make([]byte, len(base)),
 				"all-01": bytes.Repeat([]byte{1}, len(base)), "half": base[:len(base)/2], "six-buckets": valid(6, []int{1}), "five-buckets": make([]byte, 5*44), "one-bucket": make([]byte, 44),
